@@ -316,3 +316,11 @@ def run(ctx):
     r3b_no_derived_plaintext_in_logs(ctx)
     r4_external_files(ctx)
     r6_search_index_memory_only(ctx)
+    # shared with C10-R3: what is stored in clear (salt, seed in the vault header) must never be
+    # enough to derive the key — the password enters the KDF input on every path
+    from . import c10
+    c10.r3_key_derivation(ctx)
+    ctx.rules[-1].id = "C03-R7"
+    for inst in ctx.rules[-1].instances:
+        inst["rule"] = "C03-R7"
+        inst["key"] = inst["key"].replace("C10-R3|", "C03-R7|", 1)
